@@ -140,6 +140,49 @@ fn slice_lru(a: &Args, t: &mut Trace) {
 }
 
 
+/// RawLRU with resize to huge capacities (usize::MAX, 2^63, ...): "resize to any value" of C05.  The layer-L
+/// model keeps capacities in unary, so these histories are judged on the implementation only (no panic,
+/// bounds, accounting: the monitors of C05 / C01)
+fn slice_lruhuge(a: &Args, t: &mut Trace) {
+    let caps: [u64; 6] = [1, 2, 3, 4, 8, 16];
+    for i in 0..a.n {
+        let (mine, stream, hforce) = case_plan(a, i);
+        if !mine {
+            continue;
+        }
+        let mut r = rng_for(a.seed, stream + 77_000_000);
+        let cap = *r.pick(&caps);
+        let ctor = r.below(4);
+        let hmode = hforce.unwrap_or(r.below(5));
+        let len = r.range(a.len / 4 + 1, a.len) as usize;
+        let mut kg = gen::KeyGen::new(cap + 3);
+        let mut vg = gen::ValGen(1000);
+        let cfg = [cap as i128, (ctor >= 2) as i128];
+        let id = format!("lruhuge-s{}-i{}", a.seed, i);
+        let meta = format!("ctor={} hasher={}", ctor, hmode);
+        run_case(
+            t,
+            &id,
+            0,
+            &cfg,
+            &meta,
+            &|| mk_lru(cap as usize, ctor, hmode),
+            &mut |step, snap| {
+                if step >= len {
+                    return None;
+                }
+                let op = gen::lru_op(&mut r, &mut kg, &mut vg, snap, cap);
+                if op[0] == 11 && r.chance(2, 3) {
+                    let n = *r.pick(&[u64::MAX, u64::MAX - 1, 1u64 << 63, (1u64 << 32) + 1, 1_000_000_007, cap, 0]);
+                    return Some(vec![11, n as i128]);
+                }
+                Some(op)
+            },
+            &tag,
+        );
+    }
+}
+
 /// the history a generator produces on a live object (the generators look at the last snapshot)
 fn gen_history(mk: &dyn Fn() -> Box<dyn Subject>, len: usize, next: &mut dyn FnMut(&Ints) -> Ints) -> Option<Vec<Ints>> {
     ledger_reset();
@@ -1004,6 +1047,7 @@ fn main() {
     let mut t = Trace::create(&a.out);
     match a.slice.as_str() {
         "lru" => slice_lru(&a, &mut t),
+        "lruhuge" => slice_lruhuge(&a, &mut t),
         "slru" => slice_comp(&a, &mut t, 1),
         "twoq" => slice_comp(&a, &mut t, 2),
         "arc" => slice_comp(&a, &mut t, 3),
